@@ -75,6 +75,38 @@ class Callee:
         return "Callee(%s recv=%s)" % (self.name, self.recv)
 
 
+def _is_str_ref(ty):
+    import re
+    return re.match(r"^&\s*('\w+\s+)?str$", (ty or "").strip()) is not None
+
+
+def _conversion_name(c):
+    """Canonical name for the std conversions between &str, String and Cow<str>: all spellings
+    of one conversion (From::from, Into::into, to_owned, to_string) get the same name."""
+    g = c.gargs or []
+    src = tgt = None
+    if c.name == "From::from" and len(g) >= 2:
+        tgt, src = g[0], g[1]
+    elif c.name == "Into::into" and len(g) >= 2:
+        src, tgt = g[0], g[1]
+    elif c.name in ("ToOwned::to_owned", "ToString::to_string") and g and g[0].strip() == "str":
+        return "String::from"
+    if c.name == "AddAssign::add_assign" and len(g) >= 2 and ty_head(g[0]) == "String" and not g[0].strip().startswith("&") \
+            and _is_str_ref(g[1]):
+        return "String::push_str"      # impl AddAssign<&str> for String is push_str
+    if src is None:
+        return None
+    th = ty_head(tgt)
+    if th == "String" and _is_str_ref(src):
+        return "String::from"
+    if th == "Cow" and tgt.rstrip(">").rstrip().endswith("str"):
+        if _is_str_ref(src):
+            return "Cow::Borrowed"
+        if ty_head(src) == "String" and not src.strip().startswith("&"):
+            return "Cow::Owned"
+    return None
+
+
 def make_callee(term):
     c = Callee()
     if "fn" not in term:
@@ -102,6 +134,8 @@ def make_callee(term):
         c.tname = c.name
         if c.local_key:
             c.name = c.local_key
+        elif _conversion_name(c):
+            c.name = _conversion_name(c)
         elif c.name in ("Try::branch", "FromResidual::from_residual") and c.recv and ty_head(c.recv) in ("Option", "Result"):
             # the `?` operator: named after the carrier type so that it can be read as a match
             c.name = "%s::%s" % (ty_head(c.recv), c.method)
